@@ -1,10 +1,19 @@
 """C19 - connector: resolution precedence, ordered fallback, TLS server name (engine S, partial: see connworld.py / DESIGN.md)."""
 from props import connworld
+from vlib import kani
 
 
 def run(rep, tier, seed):
     rep.need_witness('c19_preresolved', 'c19_ip_literal', 'c19_lookup', 'c19_custom_resolver', 'c19_connected', 'c19_fallback_used', 'c19_all_failed', 'c19_unresolved', 'c19_tls_ok', 'c19_tls_err', 'c19_tls_invalid_name')
     connworld.run_c19(rep, tier, seed)
+    # Host for &'static str / String (host strings with / without a port): engine K over the real host.rs
+    q = tier == 'quick'
+    rep.bounds['host_strings'] = {'ascii_strings_up_to': 4, 'port_text_after_colon_up_to': 5 if q else 6, 'String_impl_up_to': 3 if q else 4}
+    rep.functions |= {'actix_tls::connect::host::{<&str as Host>::{hostname,port}, <String as Host>::{hostname,port}} (with core::str::split_once and u16::from_str)'}
+    kani.check(rep, 'C19', 'tlshost', lambda h: h.startswith('c19_host_'), () if q else ('thorough',), wall=1500 if q else 3000)
 
 
-def replay(path): return connworld.replay_file(path)
+def replay(path):
+    import json
+    d = json.load(open(path))
+    return kani.replay_file(path) if 'harness' in d else connworld.replay_file(path)
